@@ -295,7 +295,7 @@ fn bfs(run: &Run, m: &M, name: &str, actions: &[Act], depth: usize) -> Vec<(usiz
             break;
         }
         // shard the frontier; each item expands a block of states with every action
-        let block = 64usize;
+        let block = if frontier.len() < 4096 { 2usize } else { 64usize };
         let nitems = (frontier.len() + block - 1) / block;
         let found: Mutex<Vec<(Key, Key, u32)>> = Mutex::new(vec![]);
         let fr = &frontier;
@@ -421,6 +421,20 @@ fn main() {
 
     let r1 = bfs(&run, &m, "BFS full alphabet", &full, depth_full);
     let r2 = bfs(&run, &m, "BFS core alphabet", &core, depth_core);
+    // far-scale operands: a second, small pool whose scale gaps lie far beyond the first pool's (on both sides of
+    // 590*16 = 9440 where the power-of-ten helper recurses twice, at 4096, and beyond 10000), explored to depth 2
+    // with the core alphabet; results are checked, observed and expanded whatever their size
+    let mut far_pool: Vec<Dec> = vec![Dec::new(0, 0), Dec::new(1, 0), Dec::new(-725, 2), Dec::new(0, 9441), Dec::new(1, 9441), Dec::new(1, -9439)];
+    if tier.is_thorough() {
+        far_pool.extend([Dec::new(125, 1), Dec::new(7, 4096), Dec::new(-3, 10233), Dec::new(0, -20000)]);
+    }
+    let mut m2 = M::new(far_pool, 30_000);
+    m2.max_scale = 40_000;
+    let core2 = m2.core_actions();
+    run.bound("far_pool", json!(m2.pool.iter().map(|p| p.0.show()).collect::<Vec<_>>()));
+    run.bound("far_pool_depth_core_alphabet", 2);
+    let r3 = bfs(&run, &m2, "BFS far-scale operands", &core2, 2);
+    run.extra("level_sizes_far_scale", json!(r3.iter().map(|x| x.0).collect::<Vec<_>>()));
     // determinism: re-explore the full-alphabet graph to one level less and compare level sizes and digests
     let r1b = bfs(&run, &m, "BFS full alphabet (determinism re-run)", &full, depth_full.saturating_sub(1).max(1));
     // (the last level of a run is checked but not stored, so it is excluded from the comparison)
